@@ -33,6 +33,8 @@ inductive Err where
   | osError          -- raised by `_if_not_closed` / `_if_not_freed`
   | valueError       -- bad `from_what`, non-contiguous slice, non-slice key
   | attributeError   -- `free()` on a `SlicedMemoryIO` (it has no such method)
+  | transferError    -- the controller's read/write raised (SCPError: timeout, fatal return code);
+                     -- it propagates unchanged through the view's read/write
   | other            -- any other exception (observed only; the model never raises it)
   deriving Repr, DecidableEq
 
@@ -90,6 +92,9 @@ inductive Op where
   | seek (i : Nat) (n : Int) (whence : Int)
   | read (i : Nat) (n : Int)                       -- `read()` is `read(-1)`
   | write (i : Nat) (data : List Nat)
+  | readFail (i : Nat) (n : Int)                   -- `read(n)` while the controller's read raises
+  | writeFail (i : Nat) (data : List Nat) (k : Nat)
+      -- `write(data)` while the controller's write raises after storing the first `k` bytes it was given
   | slice (i : Nat) (a b : Option Int) (step : Option Int)   -- `view[a:b:step]`
   | index (i : Nat)                                -- `view[k]`, `view[a:b, c:d]`: not a slice
   | tell (i : Nat)
@@ -101,7 +106,7 @@ inductive Op where
   deriving Repr, DecidableEq
 
 def Op.target : Op → Nat
-  | .seek i _ _ | .read i _ | .write i _ | .slice i _ _ _ | .index i | .tell i
+  | .seek i _ _ | .read i _ | .write i _ | .readFail i _ | .writeFail i _ _ | .slice i _ _ _ | .index i | .tell i
   | .address i | .len i | .flush i | .close i | .free i => i
 
 /-! ## The code -/
@@ -178,6 +183,35 @@ def doWrite (w : World) (i : Nat) (v : View) (d : List Nat) : World × Out :=
   ({ setView w i { v with offset := v.offset + d'.length } with mem := writeMem w.mem v.address d' },
    ⟨.int d'.length, warn, some (.write v.address d' w.x w.y 0)⟩)
 
+/-- `read` when the controller's read raises: the code performs the transfer first
+(`data = self._parent._perform_read(self.address, n_bytes)`) and only then `self._offset += n_bytes`,
+so the exception leaves the view untouched.  Without a transfer (dead view, nothing to read) the
+fault never happens and the call is an ordinary `read`. -/
+def doReadFail (w : World) (i : Nat) (v : View) (nBytes : Int) : World × Out :=
+  if dead w v then fail w .osError else
+  let (warn, n) := readCount v nBytes
+  if n ≤ 0 then (w, ⟨.bytes [], warn, none⟩) else
+  (w, ⟨.err .transferError, warn, some (.read v.address n.toNat w.x w.y 0)⟩)
+
+/-- `write` when the controller's write raises after storing the first `k` of the bytes it was
+handed: `self._parent._perform_write(self.address, bytes)` raises before `self._offset += len(bytes)`. -/
+def doWriteFail (w : World) (i : Nat) (v : View) (d : List Nat) (k : Nat) : World × Out :=
+  if dead w v then fail w .osError else
+  let (warn, d') := writeData v d
+  if d'.length = 0 then (w, ⟨.int 0, warn, none⟩) else
+  ({ w with mem := writeMem w.mem v.address (d'.take k) },
+   ⟨.err .transferError, warn, some (.write v.address d' w.x w.y 0)⟩)
+
+/-- NOT the code: a `read` that advances the position before the transfer (`self._offset += n`
+then `return self._parent._perform_read(...)`); kept only for the witness
+`early_offset_update_breaks_failed_read` -/
+def doReadFailEarly (w : World) (i : Nat) (v : View) (nBytes : Int) : World × Out :=
+  if dead w v then fail w .osError else
+  let (warn, n) := readCount v nBytes
+  if n ≤ 0 then (w, ⟨.bytes [], warn, none⟩) else
+  (setView w i { v with offset := v.offset + n },
+   ⟨.err .transferError, warn, some (.read v.address n.toNat w.x w.y 0)⟩)
+
 def doSeek (w : World) (i : Nat) (v : View) (n whence : Int) : World × Out :=
   if dead w v then fail w .osError else
   if whence = 0 then done (setView w i { v with offset := n }) .none
@@ -223,6 +257,8 @@ def stepView (w : World) (v : View) : Op → World × Out
   | .seek i n wh => doSeek w i v n wh
   | .read i n => doRead w i v n
   | .write i d => doWrite w i v d
+  | .readFail i n => doReadFail w i v n
+  | .writeFail i d k => doWriteFail w i v d k
   | .slice _ a b s => doSlice w v a b s
   | .index _ => if dead w v then fail w .osError else fail w .valueError   -- `__getitem__`, non-slice key
   | .tell _ => if dead w v then fail w .osError else done w (.int v.offset)
@@ -274,6 +310,23 @@ def File.write (f : File) (d : List Nat) : File × Nat × Bool :=
   ({ data := f.data.take f.pos.toNat ++ d.take k ++ f.data.drop (f.pos.toNat + k),
      pos := f.pos + (k : Int) }, k, decide (k < d.length))
 
+/-- a read whose transfer fails: nothing is delivered, nothing moves.
+Returns the number of bytes the transfer was attempted for (0: no transfer, the call is an
+ordinary read) and whether the request was truncated. -/
+def File.readFail (f : File) (n : Int) : Nat × Bool :=
+  let want : Nat := if n < 0 then f.room else n.toNat
+  let k := min want f.room
+  (k, decide (k < want))
+
+/-- a write whose transfer fails after the machine stored the first `j` bytes: the position does
+not move; the file holds those bytes.  Returns the new file, the number of bytes the transfer was
+attempted for and whether the request was truncated. -/
+def File.writeFail (f : File) (d : List Nat) (j : Nat) : File × Nat × Bool :=
+  let k := min d.length f.room
+  let done := (d.take k).take j
+  ({ data := f.data.take f.pos.toNat ++ done ++ f.data.drop (f.pos.toNat + done.length),
+     pos := f.pos }, k, decide (k < d.length))
+
 /-- seek as documented ("as in the Python standard": 0 start, 1 current, 2 end;
 `seek(-1, 2)` "goes to the last byte in the region") -/
 def File.seek (f : File) (n whence : Int) : Option File :=
@@ -315,7 +368,7 @@ instance (x y : Nat) (v : View) (a : Access) : Decidable (Confined x y v a) := b
 
 /-- the file operations (those `specIO` describes) -/
 def Op.isIO : Op → Bool
-  | .seek .. | .read .. | .write .. | .tell _ | .address _ | .flush _ => true
+  | .seek .. | .read .. | .write .. | .readFail .. | .writeFail .. | .tell _ | .address _ | .flush _ => true
   | _ => false
 
 /-- operations that must fail on a closed view / freed allocation: the file operations and
@@ -337,15 +390,29 @@ structure SpecOut where
   wrote : List Nat           -- the bytes written to memory at the position (`[]` unless a write)
   deriving Repr, DecidableEq
 
+def specRead (v : View) (f : File) (n : Int) : SpecOut :=
+  let (f', bs, tr) := f.read n
+  ⟨.bytes bs, tr, { v with offset := f'.pos }, f.data, bs.length, false, []⟩
+
+def specWrite (v : View) (f : File) (d : List Nat) : SpecOut :=
+  let (f', k, tr) := f.write d
+  ⟨.int k, tr, { v with offset := f'.pos }, f'.data, k, true, d.take k⟩
+
 /-- specification of the I/O operations on a live (open, not freed) view `v`
-whose range currently holds `f.data` (`f = absFile mem v`) -/
+whose range currently holds `f.data` (`f = absFile mem v`).  A transfer that fails raises the
+controller's error, moves nothing and delivers nothing (the truncation warning, issued before the
+transfer, stays); when no transfer is needed the fault never happens. -/
 def specIO (v : View) (f : File) : Op → Option SpecOut
-  | .read _ n =>
-    let (f', bs, tr) := f.read n
-    some ⟨.bytes bs, tr, { v with offset := f'.pos }, f.data, bs.length, false, []⟩
-  | .write _ d =>
-    let (f', k, tr) := f.write d
-    some ⟨.int k, tr, { v with offset := f'.pos }, f'.data, k, true, d.take k⟩
+  | .read _ n => some (specRead v f n)
+  | .write _ d => some (specWrite v f d)
+  | .readFail _ n =>
+    let (k, tr) := f.readFail n
+    if k = 0 then some (specRead v f n)
+    else some ⟨.err .transferError, tr, v, f.data, k, false, []⟩
+  | .writeFail _ d j =>
+    let (f', k, tr) := f.writeFail d j
+    if k = 0 then some (specWrite v f d)
+    else some ⟨.err .transferError, tr, v, f'.data, k, true, d.take k⟩
   | .seek _ n wh =>
     match f.seek n wh with
     | some f' => some ⟨.none, false, { v with offset := f'.pos }, f.data, 0, false, []⟩
@@ -497,8 +564,14 @@ def opOfJson (j : Json) : R Op := do
   let i ← nat j "v"
   match k with
   | "seek" => pure (.seek i (← int j "n") (← int j "w"))
-  | "read" => pure (.read i (← int j "n"))
-  | "write" => pure (.write i (← nats j "d"))
+  | "read" =>
+    match ← opt j "fault" asInt with
+    | none => pure (.read i (← int j "n"))
+    | some _ => pure (.readFail i (← int j "n"))
+  | "write" =>
+    match ← opt j "fault" asNat with
+    | none => pure (.write i (← nats j "d"))
+    | some k => pure (.writeFail i (← nats j "d") k)
   | "slice" => pure (.slice i (← opt j "a" asInt) (← opt j "b" asInt) (← opt j "s" asInt))
   | "index" => pure (.index i)
   | "tell" => pure (.tell i)
@@ -513,6 +586,7 @@ def errName : Err → String
   | .osError => "OSError"
   | .valueError => "ValueError"
   | .attributeError => "AttributeError"
+  | .transferError => "TransferError"
   | .other => "Other"
 
 open Rig.P in
@@ -550,6 +624,7 @@ def retOfJson (j : Json) : R Ret :=
         | "OSError" => pure (.err .osError)
         | "ValueError" => pure (.err .valueError)
         | "AttributeError" => pure (.err .attributeError)
+        | "TransferError" => pure (.err .transferError)
         | _ => pure (.err .other)
 
 open Rig.P in
